@@ -294,6 +294,14 @@ class RowScalar(SV):
     def pvc_subst(self, pairs):
         return RowScalar(subst(self.v, pairs))
 
+    def pvc_merge(self, c, other):
+        from .sym import merge_values
+
+        o = other.v if isinstance(other, RowScalar) else other
+        if is_numeric(o):
+            return RowScalar(merge_values(c, self.v, o))
+        return NotImplemented
+
 
 def scalar_of(v):
     if isinstance(v, RowScalar):
